@@ -771,11 +771,11 @@ class Emitter:
             return 'AVM_SHL_S%d(%s, %s)' % (SIGNED_INT[T], self.E(a), self.E(b))
         if op in ('.*', '->*'):
             raise Abort('pointer to member')
-        if op in ('*', '/') and T in ('float', 'double'):
+        if op in ('*', '/', '+', '-') and T in ('float', 'double'):
             # float multiplication / division go through a macro so that a TU can treat the FPU operation as an
             # uninterpreted (functionally consistent) symbol; by default the macro is the C operator
             self.cur['externs'].add('AVM_FOP')
-            return 'AVM_%s_%s(%s, %s)' % ('FMUL' if op == '*' else 'FDIV', 'f32' if T == 'float' else 'f64', self.E(a), self.E(b))
+            return 'AVM_%s_%s(%s, %s)' % ({'*': 'FMUL', '/': 'FDIV', '+': 'FADD', '-': 'FSUB'}[op], 'f32' if T == 'float' else 'f64', self.E(a), self.E(b))
         if op in ('/', '%') and T in DIVT:
             # integer division goes through a macro so that a TU can treat the divide instruction as an uninterpreted
             # (functionally consistent) operation; by default the macro is the C operator itself
@@ -795,11 +795,11 @@ class Emitter:
                 self.cur['externs'].add('AVM_SHL_S')
                 ea = self.E(a)
                 return '(%s = (%s)AVM_SHL_S%d((%s)%s, %s))' % (ea, lt, SIGNED_INT[crt], crt, ea, self.E(b))
-        if op in ('*=', '/=') and (self.ctype(ct) if ct else lt) in ('float', 'double'):
+        if op in ('*=', '/=', '+=', '-=') and (self.ctype(ct) if ct else lt) in ('float', 'double'):
             crt = self.ctype(ct) if ct else lt
             self.cur['externs'].add('AVM_FOP')
             ea = self.E(a)
-            return '(%s = (%s)AVM_%s_%s((%s)%s, (%s)%s))' % (ea, lt, 'FMUL' if op == '*=' else 'FDIV', 'f32' if crt == 'float' else 'f64', crt, ea, crt, self.E(b))
+            return '(%s = (%s)AVM_%s_%s((%s)%s, (%s)%s))' % (ea, lt, {'*=': 'FMUL', '/=': 'FDIV', '+=': 'FADD', '-=': 'FSUB'}[op], 'f32' if crt == 'float' else 'f64', crt, ea, crt, self.E(b))
         if op in ('/=', '%=') and (self.ctype(ct) if ct else lt) in DIVT:
             crt = self.ctype(ct) if ct else lt
             self.cur['externs'].add('AVM_DIV')
